@@ -343,6 +343,7 @@ func (env *SpecEnv) load(p *Ptr) Term {
 	// (so it cannot alias an object allocated later); not stated for terms under a binder
 	if st := env.state(); st != nil && st.nextRef.S != "" && st.nextRef.S != TZero.S && !strings.Contains(v.S, "q$") && !strings.Contains(p.Ref.S, "q$") {
 		fx.sc.Assume(fx.heapClosed(st, v, p.T, 1))
+		fx.sc.Assume(fx.tc.WellTyped(v, p.T, 1)) // and it is a value of its Go type (ranges, slice header sanity)
 	}
 	return v
 }
